@@ -991,14 +991,25 @@ func Dot(y tensor.Tensor, a tensor.Tensor, b tensor.Tensor) (gctx *GradContext) 
 		backEdges: []*backwardEdge{
 			{
 				target: a,
-				gradFn: func() (tensor.Tensor, error) {
-					return y.Gradient().Mul(b)
+				gradFn: func() (o tensor.Tensor, err error) {
+					// restore the contracted last dimension so that the gradient lines up with the operand
+					gy, err := y.Gradient().UnSqueeze(len(y.Shape()))
+					if err != nil {
+						return
+					}
+
+					return gy.Mul(b)
 				},
 			},
 			{
 				target: b,
-				gradFn: func() (tensor.Tensor, error) {
-					return y.Gradient().Mul(a)
+				gradFn: func() (o tensor.Tensor, err error) {
+					gy, err := y.Gradient().UnSqueeze(len(y.Shape()))
+					if err != nil {
+						return
+					}
+
+					return gy.Mul(a)
 				},
 			},
 		},
